@@ -43,6 +43,8 @@ func main() {
 	pkgDir := flag.String("pkg", "", "package directory relative to repo (e.g. pkg/netpol/internal/common)")
 	hdir := flag.String("harness", "", "directory with harness .go files to overlay into the package")
 	vfFile := flag.String("vf", "", "vf primitives template file (package clause is rewritten)")
+	var extras multiFlag
+	flag.Var(&extras, "extra", "pkgdir:dir — inject the .go files of dir into another repository package (repeatable)")
 	shared := flag.String("shared", "", "directory of shared helper .go files injected with the package clause rewritten")
 	pat := flag.String("run", "^ZZ_", "regexp of harness function names")
 	out := flag.String("out", "", "output JSON file")
@@ -113,6 +115,26 @@ func main() {
 			}
 			b = regexp.MustCompile(`(?m)^package \w+`).ReplaceAll(b, []byte("package "+pkgName))
 			overlay[filepath.Join(absPkg, e.Name())] = b
+		}
+	}
+	for _, ex := range extras {
+		parts := strings.SplitN(ex, ":", 2)
+		if len(parts) != 2 {
+			fatal(fmt.Errorf("bad -extra %q", ex))
+		}
+		ents, err := os.ReadDir(parts[1])
+		if err != nil {
+			fatal(err)
+		}
+		for _, e := range ents {
+			if !strings.HasSuffix(e.Name(), ".go") {
+				continue
+			}
+			b, err := os.ReadFile(filepath.Join(parts[1], e.Name()))
+			if err != nil {
+				fatal(err)
+			}
+			overlay[filepath.Join(*repo, parts[0], e.Name())] = b
 		}
 	}
 	if *vfFile != "" {
@@ -217,6 +239,11 @@ func main() {
 	res.WallS = time.Since(t0).Seconds()
 	writeOut(*out, res)
 }
+
+type multiFlag []string
+
+func (f *multiFlag) String() string     { return strings.Join(*f, ",") }
+func (f *multiFlag) Set(s string) error { *f = append(*f, s); return nil }
 
 func first(xs []string, n int) []string {
 	if len(xs) > n {
